@@ -282,6 +282,9 @@ fn register(info: RequestInfo, plan: Plan) -> usize {
         let sizes = normalise_sizes(&plan);
         let mut info = info;
         info.id = id;
+        // pre-sized so that recording the delivered bytes never allocates during a run
+        // (the engines meter the heap of the code under test)
+        let delivered_cap = plan.body.len();
         n.reqs.push(Req {
             info,
             plan,
@@ -299,7 +302,7 @@ fn register(info: RequestInfo, plan: Plan) -> usize {
             events: Vec::new(),
             dropped: false,
             dropped_at_step: None,
-            delivered: Vec::new(),
+            delivered: Vec::with_capacity(delivered_cap),
             saw_eof: false,
             saw_err: false,
             finished: false,
